@@ -1238,3 +1238,71 @@ Proof.
   - (* INop *) rewrite Hg. cbn [bind step_rel]. exact HR.
 Qed.
 End Sim.
+
+(* ---------- F: whole instruction streams ---------- *)
+
+Section RunSim.
+Variable c : caps.
+Variable p : sparams.
+
+Lemma Rdone_prologue ini t s a b :
+  Rdone c p ini t s ->
+  exists t3, prologue (with_flags a b t) = Some t3 /\ R c p ini t3 s /\ t_last_end t3 = t_last_end t.
+Proof.
+  intros (tp & rest & bottom & HR & Hn).
+  pose proof HR as (H1 & H2 & H3 & H4 & Hst & Htop & Hrest & Hb & Hg).
+  unfold prologue. cbn [t_ctx with_flags]. rewrite Hst.
+  eexists. split; [reflexivity|]. split; [|reflexivity].
+  exists (set_start (t_next_start t) tp), rest, bottom. split; [|cbn; exact Hn].
+  unfold Rcore. cbn [t_caf t_daf t_asize t_ctx with_ctx with_flags c_stack c_init c_initial_rule].
+  refine (conj H1 (conj H2 (conj H3 (conj H4 (conj eq_refl (conj _ (conj Hrest (conj Hb Hg)))))))).
+  apply entry_rel_set_start. exact Htop.
+Qed.
+
+Lemma run_sim ini end_addr : forall items t s,
+  R c p ini t s -> t_last_end t = end_addr ->
+  match run_mid c t items, spec_run c p ini end_addr s items with
+  | ((rows, o), cx), (srows, (so, sfin)) =>
+      Forall2 row_equiv rows srows /\ o = so /\
+      (o = Done -> exists tf tp rest bottom, t_ctx tf = cx /\ Rcore c p ini tf sfin tp rest bottom)
+  end.
+Proof.
+  induction items as [|x items IH]; intros t s HR He.
+  - (* end of the stream: the final row *)
+    cbn [run_mid spec_run].
+    destruct HR as (tp & rest & bottom & HR & Hl).
+    pose proof HR as (H1 & H2 & H3 & H4 & Hst & Htop & Hrest & Hb & Hg).
+    rewrite (with_top_eq _ _ _ _ Hst). unfold top at 1. cbn [c_stack].
+    unfold prologue. cbn [t_ctx with_flags with_ctx c_stack c_init c_initial_rule t_next_start t_returned_last].
+    split; [|split; [reflexivity|]].
+    + constructor; [|constructor].
+      destruct Htop as (E1 & E2 & E3 & _). cbn [fst snd] in *.
+      unfold row_equiv, row_of. cbn. rewrite He. repeat split; auto.
+    + intros _.
+      match goal with |- exists tf _ _ _, t_ctx tf = ?cx /\ _ => exists (with_ctx cx t) end.
+      exists (set_start (t_next_start t) (set_end (t_last_end t) tp)), rest, bottom.
+      split; [reflexivity|].
+      unfold Rcore. cbn [t_caf t_daf t_asize t_ctx with_ctx with_flags c_stack c_init c_initial_rule].
+      refine (conj H1 (conj H2 (conj H3 (conj H4 (conj eq_refl (conj _ (conj Hrest (conj Hb Hg)))))))).
+      apply entry_rel_set_start, entry_rel_set_end. exact Htop.
+  - destruct x as [i|e| |]; cbn [run_mid spec_run];
+      try (split; [constructor|split; [reflexivity|discriminate]]).
+    pose proof (step_sim c p ini t s i HR) as Hs.
+    destruct (evaluate c t i) as [[[|] t1]|e| |] eqn:Ev;
+      destruct (step_lim c p ini s i) as [[s' [sr|]]|e'| |]; cbn [step_rel] in Hs; try contradiction.
+    + (* a row was completed *)
+      destruct Hs as (Hd & tp' & Htp & Hrow).
+      cbn [t_ctx with_flags]. rewrite Htp.
+      apply evaluate_flags in Ev. destruct Ev as (_ & Ev2 & _).
+      destruct (Rdone_prologue ini t1 s' (t_returned_last t1) true Hd) as (t3 & Hp & HR3 & Hl3).
+      rewrite Hp.
+      specialize (IH t3 s' HR3 ltac:(congruence)).
+      destruct (run_mid c t3 items) as [[rows o] cx].
+      destruct (spec_run c p ini end_addr s' items) as [srows [so sfin]].
+      destruct IH as (I1 & I2 & I3). split; [constructor; auto|]. auto.
+    + (* no row yet *)
+      apply evaluate_flags in Ev. destruct Ev as (_ & Ev2 & _).
+      apply IH; [exact Hs|congruence].
+    + subst. split; [constructor|split; [reflexivity|discriminate]].
+Qed.
+End RunSim.
